@@ -100,3 +100,22 @@ func (s *sched) report(r Race) {
 	s.raceSeen[k] = true
 	s.races = append(s.races, r)
 }
+
+// AccElem logs an access to one element of a slice (or of an array behind a
+// pointer). An index outside the slice is not logged: the statement itself
+// will panic exactly as it would have.
+func AccElem[S ~[]E, E any, I interface {
+	~int | ~int8 | ~int16 | ~int32 | ~int64 | ~uint | ~uint8 | ~uint16 | ~uint32 | ~uint64
+}](s S, i I, write bool, site string) {
+	sch := schedOf()
+	if sch == nil || sch.cur == nil || sch.aborting {
+		return
+	}
+	k := int(i)
+	if k < 0 || k >= len(s) {
+		return
+	}
+	Acc(unsafe.Pointer(&s[k]), write, site)
+}
+
+func schedOf() *sched { return S }
